@@ -5,7 +5,10 @@ import (
 	"fmt"
 	"io"
 
+	"github.com/9elements/converged-security-suite/v2/pkg/bootflow/systemartifacts/amdregisters"
 	"github.com/9elements/converged-security-suite/v2/pkg/bootflow/systemartifacts/biosimage"
+	"github.com/9elements/converged-security-suite/v2/pkg/bootflow/systemartifacts/txtpublic"
+	"github.com/9elements/converged-security-suite/v2/pkg/registers"
 	"github.com/9elements/converged-security-suite/v2/pkg/bootflow/types"
 	pkgbytes "github.com/linuxboot/fiano/pkg/bytes"
 
@@ -327,9 +330,17 @@ type scene struct {
 	mappers map[int][]types.AddressMapper // artifact id -> mappers usable with it
 }
 
-func (g *gen) scene(distinguishable bool) *scene {
+// regs: the scene may hold the real register files (*txtpublic.TXTPublic,
+// *amdregisters.AMDRegisters) beside the artifacts made of bytes
+func (g *gen) scene(distinguishable, regs bool) *scene {
 	s := &scene{p: newPool(), mappers: map[int][]types.AddressMapper{}}
 	size := func() int { return 8 + g.rn(17) }
+	mapperFor := func(a *hart) types.AddressMapper {
+		if a.regs != nil {
+			return g.regMapper()
+		}
+		return g.mapper()
+	}
 	if distinguishable {
 		// distinct type names, one mapper per artifact
 		cands := []func(){
@@ -337,6 +348,11 @@ func (g *gen) scene(distinguishable bool) *scene {
 			func() { s.arts = append(s.arts, s.p.addImage(g.content(size()))) },
 			func() { s.arts = append(s.arts, s.p.addReg(g.content(size()))) },
 			func() { s.arts = append(s.arts, s.p.addZZ(g.content(size()))) },
+		}
+		if regs {
+			cands = append(cands,
+				func() { s.arts = append(s.arts, s.p.addTxt(g.txtArtifact())) },
+				func() { s.arts = append(s.arts, s.p.addAmd(g.amdArtifact())) })
 		}
 		g.c.Rng.Shuffle(len(cands), func(i, j int) { cands[i], cands[j] = cands[j], cands[i] })
 		n := 1 + g.rn(3)
@@ -347,14 +363,32 @@ func (g *gen) scene(distinguishable bool) *scene {
 			cands[i]()
 		}
 		for _, a := range s.arts {
-			s.mappers[a.id] = []types.AddressMapper{g.mapper()}
+			s.mappers[a.id] = []types.AddressMapper{mapperFor(a)}
 		}
 		return s
 	}
 	n := 2 + g.rn(3)
-	imgs := 0
+	imgs, txts, amds := 0, 0, 0
 	for i := 0; i < n; i++ {
-		switch g.rn(10) {
+		c := g.rn(10)
+		if regs && g.rn(4) == 0 {
+			c = 10 + g.rn(2)
+		}
+		switch c {
+		case 10:
+			if txts == 0 || g.rn(4) == 0 { // a second one makes the comparator panic: rare
+				s.arts = append(s.arts, s.p.addTxt(g.txtArtifact()))
+				txts++
+			} else {
+				s.arts = append(s.arts, s.p.addRaw(g.content(size())))
+			}
+		case 11:
+			if amds == 0 || g.rn(4) == 0 {
+				s.arts = append(s.arts, s.p.addAmd(g.amdArtifact()))
+				amds++
+			} else {
+				s.arts = append(s.arts, s.p.addRaw(g.content(size())))
+			}
 		case 0, 1, 2, 3, 4:
 			// sometimes a DIFFERENT artifact with the same bytes as an earlier RawBytes one:
 			// identity is the slice, not the content
@@ -385,7 +419,7 @@ func (g *gen) scene(distinguishable bool) *scene {
 	for _, a := range s.arts {
 		k := 1 + g.rn(2)
 		for i := 0; i < k; i++ {
-			s.mappers[a.id] = append(s.mappers[a.id], g.mapper())
+			s.mappers[a.id] = append(s.mappers[a.id], mapperFor(a))
 		}
 	}
 	return s
@@ -614,7 +648,7 @@ func (g *gen) byArtAndRanges(s *scene, refs []href) {
 
 func (g *gen) refCases(n int) {
 	for i := 0; i < n; i++ {
-		s := g.scene(i%2 == 0)
+		s := g.scene(i%2 == 0, i%3 != 1)
 		switch i % 6 {
 		case 0, 1:
 			k := g.rn(7)
@@ -672,78 +706,210 @@ func (g *gen) inBoundRanges(a *hart, m types.AddressMapper, n int) []hrange {
 	return out
 }
 
-func (g *gen) refBytes(s *scene, r href) {
+// what the property says about the bytes of one reference, for every kind of artifact
+func expectAny(r href) regExpect {
+	if r.art.regs != nil {
+		return expectRegBytes(r)
+	}
+	w, ok, abstain := expectBytes(r)
+	return regExpect{want: w, ok: ok, abstain: abstain, must: ok}
+}
+
+// the bytes of a list of references (Reference.RawBytes: a list of one), judged
+// from the property text: "" = fine or not judged
+func judgeBytes(refs []href, panicked bool, msg string, got []byte, fn string) (fail, known string) {
+	var want []byte
+	allOK, allMust := true, true
+	for _, r := range refs {
+		e := expectAny(r)
+		if e.abstain {
+			return "", ""
+		}
+		allOK = allOK && e.ok
+		allMust = allMust && e.must
+		if known == "" {
+			known = e.known
+		}
+		want = append(want, e.want...)
+	}
+	switch {
+	case !panicked && !allOK:
+		return fmt.Sprintf("%s returned %x for ranges outside the artifacts (bytes nothing backs)", fn, got), ""
+	case !panicked && !bytes.Equal(want, got):
+		return fmt.Sprintf("%s = %x, the concatenation in list order of the referenced bytes (each reference: its offsets in increasing order) is %x", fn, got, want), ""
+	case panicked && allMust && known != "":
+		return fmt.Sprintf("%s has no bytes for references made of whole present registers: %s", fn, msg), known
+	case panicked && allMust:
+		return fmt.Sprintf("%s panicked on in-bounds ranges: %s", fn, msg), ""
+	}
+	return "", ""
+}
+
+// results of one scene, kept by the caller: whatever is called later, a result
+// handed out earlier still is what it was
+type keptBytes struct {
+	what string
+	got  []byte // the slice that was handed out
+	full []byte // got[:cap(got)]
+	was  []byte // its copy, taken at once (over the full capacity)
+}
+
+type byteSeq struct{ kept []keptBytes }
+
+func (q *byteSeq) keep(what string, got []byte, panicked bool) {
+	if panicked || got == nil {
+		return
+	}
+	full := got[:cap(got)]
+	q.kept = append(q.kept, keptBytes{what: what, got: got, full: full, was: append([]byte(nil), full...)})
+}
+
+// first earlier result that is not what it was ("" = all are)
+func (q *byteSeq) changed() string {
+	for i, k := range q.kept {
+		if !bytes.Equal(k.got, k.was[:len(k.got)]) {
+			return fmt.Sprintf("the bytes handed out by call #%d (%s) were %x and are %x after the later call", i+1, k.what, k.was[:len(k.got)], k.got)
+		}
+		if !bytes.Equal(k.full, k.was) {
+			return fmt.Sprintf("the spare capacity behind the bytes handed out by call #%d (%s) was rewritten by the later call", i+1, k.what)
+		}
+	}
+	return ""
+}
+
+func (q *byteSeq) calls() []string {
+	out := []string{}
+	for i, k := range q.kept {
+		out = append(out, fmt.Sprintf("#%d %s -> %x (result kept by the caller)", i+1, k.what, k.was[:len(k.got)]))
+	}
+	return out
+}
+
+func (g *gen) refBytes(s *scene, r href, q *byteSeq) {
 	c := g.c
 	real := toReal([]href{r})
 	var got []byte
 	panicked, msg := gal.Recover(func() { got = real[0].RawBytes() })
 	d := map[string]interface{}{"op": "Reference.RawBytes", "ref": s.p.descrRefs([]href{r})}
-	idx := c.Add("ref_rawbytes", fmt.Sprintf("CRefBytes (%s) %s", s.p.refLit(r), obsBytes(panicked, got)), d, nonEmpty([]href{r}))
-	want, ok, abstain := expectBytes(r)
+	if q != nil && len(q.kept) > 0 {
+		d["earlier calls on the same artifacts"] = q.calls()
+	}
+	var idx int
+	if r.art.regs != nil {
+		idx = c.Add("ref_rawbytes_regs", fmt.Sprintf("CGRefBytes (%s) %s", s.p.grefLit(r), obsBytes(panicked, got)), d, nonEmpty([]href{r}))
+	} else {
+		idx = c.Add("ref_rawbytes", fmt.Sprintf("CRefBytes (%s) %s", s.p.refLit(r), obsBytes(panicked, got)), d, nonEmpty([]href{r}))
+	}
+	g.verdictBytes(idx, d, []href{r}, panicked, msg, got, "Reference.RawBytes", siteData+":Reference.RawBytes", q)
+}
+
+func (g *gen) verdictBytes(idx int, d map[string]interface{}, refs []href, panicked bool, msg string, got []byte, fn, site string, q *byteSeq) {
+	c := g.c
+	fail, known := judgeBytes(refs, panicked, msg, got, fn)
 	switch {
-	case abstain:
-	case ok && panicked:
-		c.OracleFail(idx, "Reference.RawBytes panicked on in-bounds ranges: "+msg, siteData+":Reference.RawBytes", d)
-	case ok && !bytes.Equal(want, got):
-		c.OracleFail(idx, fmt.Sprintf("Reference.RawBytes = %x, the referenced bytes in offset order are %x", got, want), siteData+":Reference.RawBytes", d)
-	case !ok && !panicked:
-		c.OracleFail(idx, fmt.Sprintf("Reference.RawBytes returned %x for ranges outside the artifact", got), siteData+":Reference.RawBytes", d)
+	case fail != "" && known != "":
+		c.OracleFailKnown(idx, known, fail, regSite(refs, site), d)
+	case fail != "":
+		c.OracleFail(idx, fail, regSite(refs, site), d)
 	default:
 		c.OracleOK()
 	}
+	if q == nil {
+		return
+	}
+	if ch := q.changed(); ch != "" {
+		c.OracleFail(idx, fn+" altered a result of an earlier call: "+ch, site, d)
+		q.kept = nil // reported once
+	} else if len(q.kept) > 0 {
+		c.OracleOK()
+	}
+	q.keep(fn+" of "+shortRefs(refs), got, panicked)
 }
 
-func (g *gen) refsBytes(s *scene, refs []href) {
+func shortRefs(refs []href) string {
+	out := []string{}
+	for _, r := range refs {
+		out = append(out, fmt.Sprintf("{artifact %d (%s), mapper %s, ranges %v}", r.art.id, r.art.tn, mapperKey(r.mapper), r.ranges))
+	}
+	return fmt.Sprint(out)
+}
+
+// a failure on a list that refers to a register file: most likely in there
+func regSite(refs []href, site string) string {
+	for _, r := range refs {
+		if r.art.regs != nil {
+			if r.art.regs.amd {
+				return siteAMD + " (via " + site + ")"
+			}
+			return siteTXT + " (via " + site + ")"
+		}
+	}
+	return site
+}
+
+func (g *gen) refsBytes(s *scene, refs []href, q *byteSeq) {
 	c := g.c
 	real := toReal(refs)
 	var got []byte
 	panicked, msg := gal.Recover(func() { got = real.RawBytes() })
 	d := map[string]interface{}{"op": "References.RawBytes", "refs": s.p.descrRefs(refs)}
-	idx := c.Add("refs_rawbytes", fmt.Sprintf("CRefsBytes %s %s", s.p.refsLit(refs), obsBytes(panicked, got)), d, nonEmpty(refs))
-	var want []byte
-	allOK := true
-	for _, r := range refs {
-		w, ok, abstain := expectBytes(r)
-		if abstain {
-			return
-		}
-		if !ok {
-			allOK = false
-			break
-		}
-		want = append(want, w...)
+	if q != nil && len(q.kept) > 0 {
+		d["earlier calls on the same artifacts"] = q.calls()
 	}
-	switch {
-	case allOK && panicked:
-		c.OracleFail(idx, "References.RawBytes panicked on in-bounds ranges: "+msg, siteData+":Reference.RawBytes", d)
-	case allOK && !bytes.Equal(want, got):
-		c.OracleFail(idx, fmt.Sprintf("References.RawBytes = %x, the concatenation in list order is %x", got, want), siteData+":References.RawBytes", d)
-	case !allOK && !panicked:
-		c.OracleFail(idx, fmt.Sprintf("References.RawBytes returned %x for ranges outside the artifacts", got), siteData+":Reference.RawBytes", d)
-	default:
-		c.OracleOK()
+	var idx int
+	if anyRegs(refs) {
+		idx = c.Add("refs_rawbytes_regs", fmt.Sprintf("CGRefsBytes %s %s", s.p.grefsLit(refs), obsBytes(panicked, got)), d, nonEmpty(refs))
+	} else {
+		idx = c.Add("refs_rawbytes", fmt.Sprintf("CRefsBytes %s %s", s.p.refsLit(refs), obsBytes(panicked, got)), d, nonEmpty(refs))
 	}
+	g.verdictBytes(idx, d, refs, panicked, msg, got, "References.RawBytes", siteData+":References.RawBytes", q)
 }
 
 func (g *gen) bytesCases(n int) {
-	for i := 0; i < n; i++ {
-		s := g.scene(i%3 != 0)
+	for i := 0; i < n; {
+		s := g.scene(i%3 != 0, i%4 != 3)
 		mk := func() href {
 			a := s.arts[g.rn(len(s.arts))]
 			ms := s.mappers[a.id]
 			m := ms[g.rn(len(ms))]
+			if a.regs != nil {
+				return href{art: a, mapper: m, ranges: g.regRanges(a, m, g.rn(4))}
+			}
 			return href{art: a, mapper: m, ranges: g.inBoundRanges(a, m, g.rn(4))}
 		}
-		if i%2 == 0 {
-			g.refBytes(s, mk())
-		} else {
-			k := g.rn(5)
-			refs := make([]href, 0, k)
-			for j := 0; j < k; j++ {
-				refs = append(refs, mk())
+		// one to three calls on the artifacts of one scene, every result kept and
+		// looked at again after every later call
+		q := &byteSeq{}
+		for k := 1 + g.rn(3); k > 0; k-- {
+			if (i+k)%2 == 0 {
+				g.refBytes(s, mk(), q)
+			} else {
+				m := g.rn(5)
+				refs := make([]href, 0, m)
+				for j := 0; j < m; j++ {
+					refs = append(refs, mk())
+				}
+				g.refsBytes(s, refs, q)
 			}
-			g.refsBytes(s, refs)
+			i++
 		}
+	}
+}
+
+// ReadAt of the register files: a handful of reads on one object
+func (g *gen) regFileCases(n int) {
+	for i := 0; i < n; i++ {
+		s := &scene{p: newPool()}
+		var a *hart
+		if i%3 == 2 {
+			a = s.p.addAmd(g.amdArtifact())
+		} else {
+			a = s.p.addTxt(g.txtArtifact())
+		}
+		if i%8 == 0 {
+			g.regReadEach(a)
+		}
+		g.regReads(s, a, 3+g.rn(6))
 	}
 }
 
@@ -756,20 +922,20 @@ func (g *gen) fixedCases() {
 		a := s.p.addRaw([]byte{1, 2, 3, 4, 5, 6, 7, 8, 9, 10})
 		for off := uint64(0); off <= 10; off++ {
 			for l := uint64(0); off+l <= 11; l += 1 + l/3 {
-				g.refBytes(s, href{art: a, ranges: []hrange{{off, l}}})
+				g.refBytes(s, href{art: a, ranges: []hrange{{off, l}}}, nil)
 			}
 		}
-		g.refBytes(s, href{art: a, ranges: []hrange{{6, 2}, {0, 3}, {2, 2}}})
-		g.refBytes(s, href{art: a, ranges: nil})
-		g.refBytes(s, href{art: a, ranges: []hrange{{1 << 63, 0}}})
-		g.refBytes(s, href{art: a, ranges: []hrange{{1 << 63, 1}}})
+		g.refBytes(s, href{art: a, ranges: []hrange{{6, 2}, {0, 3}, {2, 2}}}, nil)
+		g.refBytes(s, href{art: a, ranges: nil}, nil)
+		g.refBytes(s, href{art: a, ranges: []hrange{{1 << 63, 0}}}, nil)
+		g.refBytes(s, href{art: a, ranges: []hrange{{1 << 63, 1}}}, nil)
 		img := s.p.addImage([]byte{1, 2, 3, 4, 5, 6, 7, 8})
-		g.refBytes(s, href{art: img, ranges: []hrange{{1 << 63, 0}}})
-		g.refBytes(s, href{art: img, mapper: biosimage.PhysMemMapper{}, ranges: []hrange{{0xFFFFFFF8, 8}}})
-		g.refBytes(s, href{art: img, mapper: biosimage.PhysMemMapper{}, ranges: []hrange{{0xFFFFFFFC, 2}, {0xFFFFFFF8, 4}}})
-		g.refBytes(s, href{art: img, mapper: biosimage.PhysMemMapper{}, ranges: []hrange{{0xFFFFFFFC, 5}}})
-		g.refBytes(s, href{art: img, mapper: vMapper{Delta: 1, Split: true, FailAt: 4}, ranges: []hrange{{0, 3}, {3, 2}, {6, 1}}})
-		g.refBytes(s, href{art: img, mapper: vMapper{Delta: 1, Split: true, FailAt: 4}, ranges: []hrange{{0, 3}, {5, 1}}})
+		g.refBytes(s, href{art: img, ranges: []hrange{{1 << 63, 0}}}, nil)
+		g.refBytes(s, href{art: img, mapper: biosimage.PhysMemMapper{}, ranges: []hrange{{0xFFFFFFF8, 8}}}, nil)
+		g.refBytes(s, href{art: img, mapper: biosimage.PhysMemMapper{}, ranges: []hrange{{0xFFFFFFFC, 2}, {0xFFFFFFF8, 4}}}, nil)
+		g.refBytes(s, href{art: img, mapper: biosimage.PhysMemMapper{}, ranges: []hrange{{0xFFFFFFFC, 5}}}, nil)
+		g.refBytes(s, href{art: img, mapper: vMapper{Delta: 1, Split: true, FailAt: 4}, ranges: []hrange{{0, 3}, {3, 2}, {6, 1}}}, nil)
+		g.refBytes(s, href{art: img, mapper: vMapper{Delta: 1, Split: true, FailAt: 4}, ranges: []hrange{{0, 3}, {5, 1}}}, nil)
 	}
 	// mappers m, nil, m on one artifact; A, B, A over two RawBytes; two images
 	{
@@ -794,8 +960,81 @@ func (g *gen) fixedCases() {
 	}
 }
 
+// the register files of a platform: every register in a reference of its own,
+// neighbours (TXT.STS | TXT.ESTS, ACM_STATUS | TXT.DPR), a mixed list
+func (g *gen) fixedRegisterCases() {
+	var key registers.TXTPublicKey
+	for i := range key {
+		key[i] = byte(0xA0 + i)
+	}
+	s := &scene{p: newPool()}
+	txt := s.p.addTxt(txtpublic.New(registers.Registers{
+		registers.ParseACMPolicyStatusRegister(0x1122334455667788), registers.ParseTXTStatus(0x0102030405060708),
+		registers.ParseTXTErrorStatus(0x5A), registers.ParseTXTErrorCode(0xC0000001), registers.ParseACMStatusRegister(0xCAFEBABE),
+		registers.ParseTXTDMAProtectedRangeRegister(0xDDCCBBAA), registers.ParseTXTHeapBase(0x11111111), registers.ParseTXTHeapSize(0x22222222), key}))
+	amd := s.p.addAmd(amdregisters.New(registers.Registers{registers.ParseMP0C2PMsg38Register(0x38383838), registers.ParseMP0C2PMsg37Register(0x01020304)}))
+	img := s.p.addImage([]byte{1, 2, 3, 4, 5, 6, 7, 8})
+	raw := s.p.addRaw([]byte{21, 22, 23, 24, 25, 26})
+	q := &byteSeq{}
+	var each []href
+	for _, r := range txt.regs.view {
+		ref := href{art: txt, ranges: []hrange{{uint64(r.off), uint64(len(r.val))}}}
+		g.refBytes(s, ref, q)
+		if !r.quirk {
+			each = append(each, ref)
+		}
+	}
+	for _, r := range amd.regs.view {
+		ref := href{art: amd, ranges: []hrange{{uint64(r.off), uint64(len(r.val))}}}
+		g.refBytes(s, ref, q)
+		each = append(each, ref)
+	}
+	// registers in references of their own + firmware image + in-line string
+	each = append(each, href{art: img, mapper: biosimage.PhysMemMapper{}, ranges: []hrange{{0xFFFFFFFA, 4}}}, href{art: raw, ranges: []hrange{{1, 3}}})
+	g.refsBytes(s, each, q)
+	g.refsBytes(s, []href{each[len(each)-1], each[1], each[0]}, q)
+	// the way amddata refers to the two registers: two ranges of one reference
+	g.refBytes(s, href{art: amd, ranges: []hrange{{0, 4}, {4, 4}}}, q)
+	g.refBytes(s, href{art: amd, ranges: []hrange{{4, 4}, {0, 4}}}, q)
+	g.refBytes(s, href{art: amd, ranges: []hrange{{0, 6}}}, q)
+	g.refBytes(s, href{art: amd, ranges: []hrange{{2, 2}}}, q)
+	g.refBytes(s, href{art: amd, ranges: []hrange{{4, 8}}}, q)
+	// neighbours in ONE reference (open finding), a prefix, a start in the middle, a gap, the key
+	g.refBytes(s, href{art: txt, ranges: []hrange{{0, 8}, {8, 1}}}, q)
+	g.refBytes(s, href{art: txt, ranges: []hrange{{0x330, 4}, {0x328, 8}}}, q)
+	g.refBytes(s, href{art: txt, ranges: []hrange{{0, 9}}}, q)
+	g.refBytes(s, href{art: txt, ranges: []hrange{{0, 4}}}, q)
+	g.refBytes(s, href{art: txt, ranges: []hrange{{2, 2}}}, q)
+	g.refBytes(s, href{art: txt, ranges: []hrange{{0x10, 4}}}, q)
+	g.refBytes(s, href{art: txt, ranges: []hrange{{0x10, 0}, {0x8, 0}, {0x378, 8}}}, q)
+	g.refBytes(s, href{art: txt, mapper: vMapper{Delta: maxUint64 - 0x2FF, FailAt: maxUint64}, ranges: []hrange{{0x600, 4}, {0x608, 4}}}, q)
+	// every register address, exact width; then the neighbours' addresses again
+	g.regReadEach(txt)
+	g.regReadEach(amd)
+	g.regReads(s, txt, 12)
+	g.regReads(s, amd, 8)
+}
+
 func (g *gen) probes() {
 	c := g.c
+	// open findings about the TXT register file
+	{
+		var key registers.TXTPublicKey
+		key[0], key[31] = 0xAA, 0xBB
+		t := txtpublic.New(registers.Registers{registers.ParseTXTStatus(0x0102030405060708), registers.ParseTXTErrorStatus(0x5A), key})
+		ref := func(rs ...pkgbytes.Range) *types.Reference {
+			return &types.Reference{Artifact: t, MappedRanges: types.MappedRanges{Ranges: rs}}
+		}
+		want := []byte{8, 7, 6, 5, 4, 3, 2, 1, 0x5A}
+		var got []byte
+		panicked, msg := gal.Recover(func() {
+			got = ref(pkgbytes.Range{Offset: 0, Length: 8}, pkgbytes.Range{Offset: 8, Length: 1}).RawBytes()
+		})
+		c.Probe(fAdjacent, panicked || !bytes.Equal(got, want), fmt.Sprintf("Reference{TXTPublic{TXT.STS, TXT.ESTS}, ranges [0:8],[8:9]}.RawBytes(): panicked=%v (%s), got %x; the two registers hold %x (each of them alone is readable)", panicked, msg, got, want))
+		got = nil
+		panicked, msg = gal.Recover(func() { got = ref(pkgbytes.Range{Offset: 0x400, Length: 32}).RawBytes() })
+		c.Probe(fWideReg, panicked || !bytes.Equal(got, key[:]), fmt.Sprintf("Reference{TXTPublic{..., TXT.PUBLIC.KEY}, ranges [0x400:0x420]}.RawBytes(): panicked=%v (%s), got %x; the register holds %x", panicked, msg, got, key[:]))
+	}
 	// C11-D6: References{refA}.Exclude(refB) over two different RawBytes artifacts
 	{
 		a := types.RawBytes{1, 2, 3, 4}
